@@ -6,6 +6,7 @@ HERE = os.path.dirname(os.path.abspath(__file__))
 sys.path.insert(0, HERE)
 import facts, extract
 out = set()
+sigs = {}
 for cfg in extract.CONFIGS:
     extract.extract(cfg)
     d = os.path.join(extract.CACHE, 'facts-main-' + cfg)
@@ -14,8 +15,10 @@ for cfg in extract.CONFIGS:
             dd = json.loads(line)
             if 'path' in dd and dd.get('kind') in ('Fn', 'AssocFn') and not dd.get('promoted'):
                 out.add(facts.norm(dd['path']))
+                sigs[facts.norm(dd['path'])] = (dd.get('kind'), dd.get('asyncness', False), tuple(dd.get('sig_in') or []), dd.get('sig_out'))
 with open(os.path.join(HERE, 'known_fns.txt'), 'w') as fh:
     fh.write("# functions of rodbus / rodbus-ffi on the pinned tree (all feature configurations); anything else is an unknown helper and is inlined\n")
     for p in sorted(out):
         fh.write(p + '\n')
+json.dump({p: list(v) for p, v in sorted(sigs.items())}, open(os.path.join(HERE, 'known_sigs.json'), 'w'), indent=0)
 print(len(out))
